@@ -132,7 +132,20 @@ def build_record(recspec, **meta):
         if key in m:
             kw[key] = build(m[key])
     kw.update(meta)
-    return desc.recordType(*vals, **kw)
+    rec = desc.recordType(*vals, **kw)
+    # a record carries the descriptor it was created with: checked against the SPEC here, because every later
+    # observation goes through rec._desc and would follow a corrupted descriptor silently
+    try:
+        got = [rec._desc.name, [list(t) for t in rec._desc.get_field_tuples()]]
+    except Exception as e:          # noqa: BLE001
+        got = ["<%s>" % type(e).__name__, []]
+    want = [recspec[1][0], [list(t) for t in recspec[1][1]]]
+    if got != want and len(DESC_MISMATCH) < 8:
+        DESC_MISMATCH.append({"declared": want, "carries": got})
+    return rec
+
+
+DESC_MISMATCH = []
 
 
 # ------------------------------------------------------------------ observe: Python value -> canonical JSON-able
